@@ -158,9 +158,10 @@ def raft_run(ctx, note=True):
     return res
 
 
-FRAGMENT = ('fragment of Props/TierC4.v (TierC3.v: the same without dump files, TierC2.v: also without chunked entries, TierC.v: also '
-            'without compaction): static membership, 1 < batch, voters never restart, no snapshot refused for its code version, nothing '
-            'delivered to a node with a dump file before its first tick (the code polls only inside a tick); commands of any '
+FRAGMENT = ('fragment of Props/TierC5.v (TierC4.v: the same but no snapshot refused for its code version, TierC3.v: also without '
+            'dump files, TierC2.v: also without chunked entries, TierC.v: also without compaction): static membership, 1 < batch, voters '
+            'never restart, nothing delivered to a node with a dump file before its first tick (the code polls only inside a tick); '
+            'snapshots refused for their code version, commands of any '
             'size (entries sent in pieces), log compaction and snapshot install on voters and read-only nodes, read-only nodes, drops, '
             'losses, any clocks allowed')
 PARTIAL = {
